@@ -93,6 +93,12 @@ func ProfileFor(prop string) *Config {
 	case "C02":
 		// F4 is off for the comparison (different assets legitimately behave differently)
 		cfg.Shadow = true
+	case "C08":
+		cfg.Allow.Assets = false
+		cfg.Gen.NumberFormat = true
+		cfg.Gen.RichLocalization = true
+		cfg.Gen.OrderSensitive = true
+		cfg.Gen.OldVersions = true
 	case "C02x":
 		// the separate small configuration that references @webhook/@legacy_extra after waits
 		cfg.Shadow = true
